@@ -569,7 +569,8 @@ def C03(run):
     # the rules with batch exclusions and statute-specific tie rules get double weight
     count_property(run, dict(rules=STAT + ['wigm', 'cfer-batch', 'wigm-prf-batch', 'mpls', 'scotland'],
                              keys=['C04q', 'C06r', 'C07b', 'C07l', 'C07t', 'C07s'], proj=proj_C03, model_is_spec=True,
-                             options_fn=wigm_fixed4, quick=9000, thorough=150000))
+                             options_fn=wigm_fixed4, quick=9000, thorough=150000,
+                             extra_gate=lambda run: quota_gate(run) + formula_gate(run) + guard_gate(run) + transfer_gate(run) + keys_gate(run) + select_gate(run)))
 
 
 @prop('C04')
